@@ -413,8 +413,30 @@ def r2(chk, facts):
                                        f"through from_text", where=bb.span["file"])
 
 
+def identity_rule(chk, facts):
+    """a Principal is the byte string bytes[..len]: equality, hashing and ordering look at the length as well as at the (zero padded)
+    array — otherwise ids that differ only by trailing zero bytes are one principal for `==` / map keys but have different texts"""
+    from facts import walk as _walk, callee as _callee
+    p = facts.crate("ic_principal")
+    n = 0
+    for k, h in sorted(p.hir.items()):
+        m = re.match(rf"^<{re.escape(P)} as core::(cmp::PartialEq|hash::Hash|cmp::PartialOrd|cmp::Ord)>::(eq|hash|partial_cmp|cmp)$", k)
+        if not m or h.get("body") is None:
+            continue
+        n += 1
+        chk.analysed(k)
+        fields = {x.get("n") for x in _walk(h["body"]) if x.get("k") == "field"}
+        via_slice = any(x.get("k") in ("call", "mcall") and re.search(r"Principal::(as_slice|as_ref)$", _callee(x) or "") for x in _walk(h["body"]))
+        chk.expect({"len", "bytes"} <= fields or via_slice, f"identity:{m.group(2)}",
+                   f"{k} looks at {sorted(x for x in fields if x)} only: the identity of a principal is the pair (len, bytes) — with the length left "
+                   f"out, [] and [0] (texts `aaaaa-aa` and `2ibo7-dia`) are equal / collide as keys", where=f"{h['span']['file']}:{h['span']['lo']}",
+                   ok_detail="uses len and bytes" if not via_slice else "uses as_slice()")
+    chk.floor("identity impls of Principal (PartialEq, Hash, PartialOrd, Ord)", n, 4)
+
+
 # --------------------------------------------------------------------------- R3
 def r3(chk, facts):
+    identity_rule(chk, facts)
     p = facts.crate("ic_principal")
     c = facts.crate("candid")
     K = consts(p)
